@@ -123,6 +123,70 @@ def registry(cid, tier='thorough'):
     return reg
 
 
+# ---------------------------------------------------------------------------------------------------- the curve registry (C19, C05)
+CURVES = EC.CURVES
+
+
+def curves_registry():
+    """_Curves.load / __getitem__ executed from their real source together with the real loaders (_nist_ecc / _edwards / _montgomery,
+    inlined): the registry is filled and a record decorated only while curves_lock is held, every accepted name maps to the record of
+    its family (field values = spec.keys tables), a record handed out is fully decorated.  Point construction inside __getitem__
+    (curve.G = EccPoint(...)) is the subject of the point.* units and is a stub here (it re-enters the registry under the RLock)."""
+    from . import key_ecc
+    from . import rawapi
+    reg = key_ecc.loader_registry()
+    for t in list(reg.contracts):
+        if t in key_ecc.LOADERS.values():
+            del reg.contracts[t]              # the loaders are executed (inlined), not assumed
+    reg.overrides[CURVES + '.all_names'] = EC.ALL_NAMES
+    reg.add(ClassContract('abs.BasePoint', fields={'g_x': 'any', 'g_y': 'any', 'g_name': 'any'}, abstract=True))
+
+    def point_stub(E, st, args, kw):
+        return [('val', st, rawapi.new_native(st, 'abs.BasePoint', g_x=args[0], g_y=args[1] if len(args) == 3 else None, g_name=args[-1]))]
+    reg.models[ECCPOINT] = point_stub
+    reg.models[ECCXPOINT] = point_stub
+    # a record that is already registered is fully decorated (the invariant the lock protects)
+    reg.add(ClassContract('Crypto.PublicKey._curve._Curve', fields={'id': 'int', 'G': 'obj:abs.BasePoint', 'is_edwards': 'bool', 'is_montgomery': 'bool',
+                                                                      'is_weierstrass': 'bool'},
+                          valid=['self.is_edwards == (self.id == 6 or self.id == 7)', 'self.is_montgomery == (self.id == 8 or self.id == 9)',
+                                 'self.is_weierstrass == (1 <= self.id and self.id <= 5)']))
+    return reg
+
+
+def curves_unit_registry(name):
+    """one registry per name (finite configuration): the contracts of load / __getitem__ for exactly this name"""
+    from . import key_ecc
+    reg = curves_registry()
+    cid = EC.CID_OF.get(name)
+    nm = ('const', name) if name is not None else 'str'
+    simple = cid is not None and name.replace('_', '').isalnum()        # dict(...) type specs take identifier-like keys only
+    fields = {'curves': 'dict()' + ('|dict(%s:obj:Crypto.PublicKey._curve._Curve)' % name if simple else ''), 'curves_lock': 'any:lock:curves'}
+    reg.add(ClassContract(CURVES, fields=fields))
+    if cid is None:
+        for f in ('load', '__getitem__'):
+            reg.add(Contract(CURVES + '.' + f, params={'name': nm}, raises={'ValueError': ('iff', 'True or name is None')}, modifies=None))
+        return reg
+    rec = dict((k, v) for k, v in key_ecc.record_clauses(cid).items() if k != 'G_later')
+    fresh = 'old(self.curves.get(%r) is None)' % name
+    ens = dict(('rec_' + k, '%s ==> (%s)' % (fresh, v)) for k, v in rec.items())
+    ens['id'] = 'result.id == %d' % cid
+    ens['aliases'] = '%s ==> (%s)' % (fresh, ' and '.join('self.curves[%r] is result' % a for a in EC.NAMES[cid]))
+    # load(name) ALWAYS builds a new record and registers it under every alias; its caller holds the lock (requires, depth 1)
+    ens_load = dict(('rec_' + k, v) for k, v in rec.items())
+    ens_load.update({'id': 'result.id == %d' % cid, 'aliases': ' and '.join('self.curves[%r] is result' % a for a in EC.NAMES[cid]),
+                     'locked': 'writes_outside_lock(1) == 0', 'G_later': 'result.G is None'})
+    reg.add(Contract(CURVES + '.load', params={'name': nm}, raises={}, modifies=None, ensures=ens_load))
+    ens2 = dict(ens)
+    ens2.update({'decorated_G': 'result.G is not None',
+                 'flags': 'result.is_edwards == %r and result.is_montgomery == %r and result.is_weierstrass == %r' % (cid in (6, 7), cid in (8, 9), cid <= 5),
+                 'G_args': '%s ==> (result.G.g_x is result.Gx and result.G.g_y is %s and result.G.g_name == %r)' % (fresh, 'None' if cid in (8, 9) else 'result.Gy', name),
+                 'registered': 'self.curves[%r] is result' % name, 'locked': 'writes_outside_lock(0) == 0'})
+    reg.add(Contract(CURVES + '.__getitem__', params={'name': nm}, raises={}, modifies=None, ensures=ens2, inline=[CURVES + '.load'],
+                     # registry invariant (what the lock protects): a registered name maps to a fully decorated record of its family
+                     requires=['(%r in self.curves) ==> (self.curves[%r].id == %d and valid(self.curves[%r]))' % (name, name, cid, name)]))
+    return reg
+
+
 POINT_FUNCS = ['__init__', 'xy', 'copy', '__eq__', '__neg__', 'double', '__iadd__', '__add__', '__imul__', '__mul__', '__rmul__',
                'point_at_infinity', 'is_point_at_infinity']
 XPOINT_FUNCS = ['__init__', 'x', 'copy', '__eq__', '__imul__', '__mul__', '__rmul__', 'point_at_infinity', 'is_point_at_infinity']
@@ -137,6 +201,13 @@ def targets(cid):
 def units(prop, tier):
     from vf.pyunit import pyvc_unit
     out = []
+    if prop in ('C19', 'C05'):
+        names = list(EC.ALL_NAMES) + [None]
+        if tier == 'quick':
+            names = [ns[0] for ns in EC.NAMES.values()] + ['NIST P-256', 'X25519', None]
+        for name in names:
+            out.append(pyvc_unit(prop, 'point.curves.%s' % (name or 'unknown').replace(' ', '_'), lambda name=name: curves_unit_registry(name),
+                                 [CURVES + '.load', CURVES + '.__getitem__']))
     if prop == 'C06':
         for cid in EC.ALL_CIDS:
             out.append(pyvc_unit(prop, 'point.%s' % EC.LABEL[cid], lambda cid=cid: registry(cid, tier), targets(cid), weight=3))
